@@ -667,7 +667,7 @@ def plan_uvl_peer(seed, tier):
                      expect={"kind": "any"})
                 b.op(op="CORRUPT", path=path, fmt="uvl", frac=rng.random(),
                      kind=rng.choice(["bitflip", "subst", "zero_sector", "dup_sector",
-                                      "drop_sector", "truncate"]),
+                                      "drop_sector", "truncate", "utf8_break", "utf8_break"]),
                      bit=rng.randint(0, 7), byte=rng.choice([0x24, 0, 0xff, 0x7b, 0x22]),
                      sector=rng.choice([16, 64]))
                 b.op(op="READ", fmt="uvl", path=path, pathstyle="abs")
@@ -864,7 +864,7 @@ def plan_third_party(seed, tier):
                      expect={"kind": "any"})
                 b.op(op="CORRUPT", path=path, fmt=fmt, frac=rng.random(),
                      kind=rng.choice(["bitflip", "subst", "zero_sector", "dup_sector",
-                                      "drop_sector", "truncate"]),
+                                      "drop_sector", "truncate", "utf8_break"]),
                      bit=rng.randint(0, 7), byte=rng.choice([0x3c, 0, 0xff, 0x7b, 0x22]),
                      sector=rng.choice([16, 64]))
                 b.op(op="READ", fmt=fmt, path=path, pathstyle="abs")
